@@ -176,6 +176,10 @@ type concCfg struct {
 	// AllDeadStart: the databases start with several segments in which every record is dead, and the workers start
 	// only once the first Merge is under way (they queue up on the lock while Merge holds it)
 	AllDeadStart bool
+	// DrainedStart (RAM modes): every key the workload will ever use is put and deleted again in every shard bucket,
+	// and the database merged, before the workload starts: the buckets exist, hold nothing live, and the handle has
+	// merged once - the workload then puts only keys those buckets have seen before, and every Merge is a second one
+	DrainedStart bool
 	// PKeys > 0: a bucket "pb" with that many live keys (each key is its own partition of the checked history):
 	// Merge runs long over many live records while workers overwrite, delete and read single keys of it
 	PKeys int
@@ -374,6 +378,42 @@ func runConc(c *CaseCtx, cc concCfg) *concResult {
 			val := make([]byte, int(cc.DBs[i].Seg)/3)
 			for k := 0; k < 8; k++ {
 				db.Update(func(tx *nutsdb.Tx) error { return tx.Put("pre", []byte(fmt.Sprintf("p%d", k%3)), val, 0) })
+			}
+			func() {
+				defer func() {
+					if p := recover(); p != nil {
+						res.panics = append(res.panics, fmt.Sprintf("Merge before the workload panicked: %v", p))
+					}
+				}()
+				if err := db.Merge(); err == nil {
+					res.preMerges++
+				}
+			}()
+		}
+	}
+	if cc.DrainedStart {
+		for i, db := range dbs {
+			if cc.DBs[i].Mode == 2 {
+				continue
+			}
+			val := make([]byte, int(cc.DBs[i].Seg)/4)
+			for s := 0; s < cc.Shards; s++ {
+				for _, k := range []string{"k1", "k2", "k3"} {
+					db.Update(func(tx *nutsdb.Tx) error { return tx.Put(shardBucket(s), []byte(k), val, 0) })
+				}
+			}
+			for s := 0; s < cc.Shards; s++ {
+				db.Update(func(tx *nutsdb.Tx) error {
+					for _, k := range []string{"k1", "k2", "k3"} {
+						if err := tx.Delete(shardBucket(s), []byte(k)); err != nil {
+							return err
+						}
+					}
+					return nil
+				})
+			}
+			for k := 0; k < 4; k++ {
+				db.Update(func(tx *nutsdb.Tx) error { return tx.Put("pre", []byte(fmt.Sprintf("p%d", k%2)), val, 0) })
 			}
 			func() {
 				defer func() {
